@@ -66,11 +66,12 @@ u64 Btdmp::GetMaxSkip() const {
 }
 
 void Btdmp::Skip(u64 ticks) {
-    if (!transmit_enable)
+    if (!transmit_enable || ticks == 0)
         return;
 
+    // If the period was lowered below the running timer, Tick transmits on the very next tick
     if (transmit_timer >= transmit_period)
-        transmit_timer = 0;
+        transmit_timer = transmit_period - 1;
 
     u64 future_timer = transmit_timer + ticks;
     u64 cycles = future_timer / transmit_period;
